@@ -235,7 +235,7 @@ def checkTx (st : St) (tx : List String) : St × List String := Id.run do
             | none => (0, 0)
           let (p, e) := PolicySpec.onData st.p 0 st.nowUs tsn si fl pol
           st := { st with p := p }
-          -- class D21: the chunk was ALREADY abandoned (previous state line) when this gather put it on the wire again
+          -- class D21 (fixed by 6ddfdda: must not come back): the chunk was ALREADY abandoned (previous state line) when this gather put it on the wire again
           let e := e.map fun m => if !(m.splitOn "[D14:").tail.isEmpty || !st.obs.ab.contains tsn then m
             else m ++ " [D21: already abandoned when it was retransmitted]"
           out := out ++ e.toList
